@@ -451,3 +451,31 @@ Proof.
   - destruct (negb (same_slot (filter_some (firstn_N n (skipn 3 c))))); [discriminate|].
     destruct (single bk cf ins redir c); discriminate.
 Qed.
+
+(* ================= statements in the form Props/C09.v quotes ================= *)
+Lemma table_wf : forall m s a, wf_map m -> (slot_map_get (slot_map_new m) s = Some a <-> covers (ranges_of m a) s).
+Proof. intros. rewrite table_correct. apply last_owner_wf; auto. Qed.
+
+Lemma table_order : forall m m' s, Permutation m m' -> wf_map m ->
+  slot_map_get (slot_map_new m) s = slot_map_get (slot_map_new m') s.
+Proof. intros. rewrite !table_correct. apply last_owner_perm; auto. Qed.
+
+Lemma table_overlap : forall m s,
+  (forall a, slot_map_get (slot_map_new m) s = Some a -> In a (owners m s)) /\
+  (slot_map_get (slot_map_new m) s = None <-> owners m s = []).
+Proof.
+  intros. rewrite table_correct. split.
+  - apply last_owner_in_owners.
+  - symmetry. apply owners_nil.
+Qed.
+
+Lemma multi_key_sent : forall bk cf ins redir c a c',
+  In (a, c') (out_sent (handle_data bk cf ins redir c)) ->
+  sent_by (route cf ins redir (cmd_slot c)) c a c' \/
+  exists sub ks, sub_of c sub ks /\ ks <> [] /\
+    (forall k, In k ks -> In (Some k) c /\ cmd_slot sub = Some (slot k)) /\
+    sent_by (route cf ins None (cmd_slot sub)) sub a c'.
+Proof.
+  intros bk cf ins redir c a c' H. destruct (data_sent _ _ _ _ _ _ _ H) as [H1|(sub & ks & Hs & Hb)]; auto.
+  right. exists sub, ks. destruct (sub_of_slot _ _ _ Hs) as [Hne Hk]. auto.
+Qed.
